@@ -322,6 +322,12 @@ def assemble_class(path: str, clsname: str, glob_for, exact: bool = True, skip=(
             m = _Strip(exact).visit(m)
             m.decorator_list = decs
             body.append(m)
+        elif isinstance(n, (ast.Assign, ast.AnnAssign)) and getattr(n, "value", None) is not None:
+            # class-level attribute (e.g. a parameter descriptor): kept, annotation dropped
+            m = copy.deepcopy(n)
+            _annotate_float_sources(m, lines)
+            m = _Strip(exact).visit(m)
+            body.append(m)
     if not body:
         body = [ast.Pass()]
     cdef = ast.ClassDef(name=clsname, bases=[ast.Name(id=f"__base{i}__", ctx=ast.Load()) for i in range(len(bases))],
@@ -339,3 +345,23 @@ def assemble_class(path: str, clsname: str, glob_for, exact: bool = True, skip=(
                                                sha256=hashlib.sha256(seg.encode()).hexdigest())
     _assembled[key] = out
     return out
+
+
+def compile_module_functions(path: str, glob: dict, names=None, exact: bool = True) -> dict:
+    """Compile the module-level functions of `path` (all, or those in `names`) from their ASTs into one
+    namespace (a copy of `glob`), so that they call each other's extracted versions."""
+    src, tree = read(path)
+    lines = src.splitlines()
+    body = []
+    for n in tree.body:
+        if isinstance(n, ast.FunctionDef) and (names is None or n.name in names):
+            m = copy.deepcopy(n)
+            _annotate_float_sources(m, lines)
+            m = _Strip(exact).visit(m)
+            body.append(m)
+    mod = ast.Module(body=body, type_ignores=[])
+    ast.fix_missing_locations(mod)
+    g = dict(glob)
+    g.setdefault("__vt_lit__", lit)
+    exec(compile(mod, f"<extracted functions of {path}>", "exec"), g)
+    return g
